@@ -379,9 +379,22 @@ def smt_dump(goto, harness, prop_names, outfile, timeout):
     txt = open(outfile).read()
     txt = txt[:txt.index("(check-sat)")] + "(check-sat)\n(exit)\n"
     txt, sites = repair_overflow.repair(txt)
+    txt = _drop_zero_width_decls(txt)
     with open(outfile, "w") as f:
         f.write(txt)
     return "query", secs, sites
+
+
+_ZW = re.compile(r"^\(declare-fun (\|[^|]*\||\S+) \(\) \(_ BitVec 0\)\)\n", re.M)
+
+
+def _drop_zero_width_decls(txt):
+    """CBMC declares zero-sized Rust globals as (_ BitVec 0), which SMT-LIB forbids. Such a declaration is dropped when
+    the symbol is not used anywhere else; otherwise it is kept and the solvers' (error makes the query inconclusive."""
+    for m in list(_ZW.finditer(txt)):
+        if txt.count(m.group(1)) == 1:
+            txt = txt.replace(m.group(0), "", 1)
+    return txt
 
 
 SOLVERS = [("cvc5", ["cvc5", "--lang", "smt2"]), ("z3", ["z3-new"])]
@@ -574,5 +587,6 @@ def run_jobs(crate, harnesses, budget, progress=True, order_seed=0, witness_ever
         futs = [ex.submit(work, i, h, s, w) for i, (h, s, w) in enumerate(jobs)]
         for f in futs:
             results.append(f.result())
-    shutil.rmtree(runroot, ignore_errors=True)
+    if not os.environ.get("VK_KEEP"):
+        shutil.rmtree(runroot, ignore_errors=True)
     return results
